@@ -37,6 +37,13 @@ def shape(freq, name, parts, B=3, K=2, inter=1, cand=2, extra=(), uw=None, **kw)
                           'rrul_fill_mly.2': parts.get('NDOW', 0) + 2, 'rrul_fill_mly.3': parts.get('NDOW', 0) + 2, 'rrul_fill_mly.4': 3,
                           'rrul_fill_mly.5': bymon, 'rrul_fill_mly.6': bymon, 'rrul_fill_mly.7': ntimes + 2, 'rrul_fill_mly.8': cand + 2,
                           'rrul_fill_mly.9': 4, 'rrul_fill_mly.10': bymon, 'rrul_fill_mly.11': B + 3})
+    if freq == 1:
+        # rrul_fill_yly: list scans (.0-.5), time-of-day enumeration (.6) inside the candidate loop (.7) inside the year-bucket loop (.8)
+        # inside the main loop (.9): exact bounds instead of one for all
+        nt_ = max(parts.get('NH', 0), 1) * max(parts.get('NM', 0), 1) * max(parts.get('NS', 0), 1)
+        ll_ = max([parts.get(k, 0) for k in ('NMON', 'NDOM', 'NDOY', 'NWK', 'NDOW')] + [0]) + 2
+        unwindset.update({'rrul_fill_yly.0': ll_, 'rrul_fill_yly.1': ll_, 'rrul_fill_yly.2': ll_, 'rrul_fill_yly.3': ll_, 'rrul_fill_yly.4': ll_, 'rrul_fill_yly.5': ll_,
+                          'rrul_fill_yly.6': nt_ + 2, 'rrul_fill_yly.7': cand + 2, 'rrul_fill_yly.8': 4, 'rrul_fill_yly.9': B + 3})
     ntimes_all = max(parts.get('NH', 0), 1) * max(parts.get('NM', 0), 1) * max(parts.get('NS', 0), 1)
     if freq == 4:
         # rrul_fill_dly: the time-of-day enumeration (.6) and the month carry (.7) nest inside the main loop (.8): exact bounds
@@ -46,7 +53,7 @@ def shape(freq, name, parts, B=3, K=2, inter=1, cand=2, extra=(), uw=None, **kw)
         unwindset.update({'rrul_fill_Hly.8': parts.get('NDOY', 0) + 2, 'rrul_fill_Hly.9': max(parts.get('NM', 0), 1) * max(parts.get('NS', 0), 1) + 2, 'rrul_fill_Hly.10': 3})
     unwindset.update(uw or {})
     o = dict(name='%s_%s_i%d' % (FNAME[freq], name, inter), src='h_rrul.c', defs=defs, units=U, incl=['src/evrrul.c'], replay_units='all',
-             unwind=4, unwindset=unwindset, solver='minisat', slice_formula=True, timeout=3000 if freq <= 3 else 1200, mem_gb=10 if freq <= 3 else 4,
+             unwind=4, unwindset=unwindset, solver='minisat', slice_formula=True, timeout=1500 if freq <= 3 else 1000, mem_gb=(14 if freq == 1 else 8) if freq <= 3 else 4,
              extra=['--max-field-sensitivity-array-size', '4'],
              checks=['--bounds-check', '--div-by-zero-check'],
              enc=[FN[freq], 'make_enum', 'fill_*', 'clr_poss', 'shift', 'ymcw_get_dom', 'ywd_to_md', 'yd_to_md', 'ycw_get_yday', 'bitint.h', 'bitint.c', 'echs_scale_ndim/wday'],
